@@ -163,11 +163,13 @@ func c11Special() *core.Scenario {
 		{"CR EQU 0x0d\nlf EQU 0x0a\nStar EQU '*'\n.pad EQU 3\ncfg.size EQU .pad*2\n\tMOV AL,Star\n\tDB CR,lf,Star\n\tRESB .pad\n\tDW cfg.size\n\tCMP AL,Star+1\n", "\tMOV AL,'*'\n\tDB 0x0d,0x0a,'*'\n\tRESB 3\n\tDW 6\n\tCMP AL,'*'+1\n"},
 		// a name defined twice: each use sees the definition that precedes it
 		{"NSEC EQU 3\nSTEP EQU 2\nSPAN EQU STEP*4\n\tMOV CX,NSEC\n\tMOV AL,[SI+NSEC-1]\n\tDB NSEC,STEP\n\tRESB NSEC\nNSEC EQU 5\n\tMOV CX,NSEC\n\tDB NSEC,SPAN\n\tRESB NSEC\n", "\tMOV CX,3\n\tMOV AL,[SI+3-1]\n\tDB 3,2\n\tRESB 3\n\tMOV CX,5\n\tDB 5,8\n\tRESB 5\n"},
+		// the counter idiom: a name redefined in terms of its previous value
+		{"SLOT EQU 0\n\tDB SLOT\nSLOT EQU SLOT+1\n\tDB SLOT\n\tMOV AX,SLOT\nSLOT EQU SLOT*2+2\n\tDW SLOT\n\tRESB SLOT\n", "\tDB 0\n\tDB 0+1\n\tMOV AX,0+1\n\tDW (0+1)*2+2\n\tRESB (0+1)*2+2\n"},
 		{"E EQU 1\nAX2 EQU 2\n\tMOV AX,E\n\tMOV EAX,AX2\n\tMOV ES,AX\n\tDB E,AX2\n", "\tMOV AX,1\n\tMOV EAX,2\n\tMOV ES,AX\n\tDB 1,2\n"},
 	}
 	return &core.Scenario{
 		Name: "equ_special", Bound: -1,
-		Rule:   "9 hand-written program pairs (with EQU names / inlined) x ORG {none, 0x7c00} x BITS: EQU capturing $, names that are substrings of registers, keywords or labels, names used in EQU bodies before their own definition, string-valued and character-valued names, lower-case and dotted names",
+		Rule:   "10 hand-written program pairs (with EQU names / inlined) x ORG {none, 0x7c00} x BITS: EQU capturing $, names that are substrings of registers, keywords or labels, names used in EQU bodies before their own definition, string-valued and character-valued names, lower-case and dotted names",
 		Bounds: map[string]any{"pairs": len(pairs)},
 		Build: func(c *core.Chooser) *core.Case {
 			pi := c.Pick("pair", len(pairs))
@@ -199,11 +201,6 @@ func c11Special() *core.Scenario {
 					v.Outcome = "assembled"
 					v.Nontrivial = true
 					if core.ReportsError(rs[0], nil) {
-						if strings.Contains(pairs[pi][0], "NSEC EQU 5") {
-							// defining a name twice: an assembler may refuse that; what must not happen is a silent wrong value
-							v.Outcome = "redefinition_refused"
-							return v
-						}
 						v.Fails = []core.Fail{{Facet: "equ", Dev: "diagnosed_only_with_names", Detail: errSummary(rs[0])}}
 					} else if !bytes.Equal(rs[0].Out, rs[1].Out) {
 						v.Fails = []core.Fail{{Facet: "equ", Dev: "bytes_differ", Detail: fmt.Sprintf("with names %x, inlined %x", rs[0].Out, rs[1].Out)}}
